@@ -1,6 +1,107 @@
-/-! Driver entry for property C12 (stub: not implemented yet). -/
-namespace HeartwoodModel.Driver.C12
+import HeartwoodModel.Model.Serve
+import HeartwoodModel.Driver.Util
+/-! Driver entry for C12 (and the header cases of C13c, see `Driver/C13.lean`).
 
-def run (_args : List String) : String := "unimplemented"
+* `h <stream hex> <chunk> <graph>` — `git_request` on the stream. `graph` is the graph of
+  `RepoId::from_canonical` on candidate points: comma-separated `<point hex>:<oid hex | x>` (`-` = empty
+  graph); `chunk` (read size of the harness' reader) is ignored by the model.
+  Output: `ok rid=<oid> path=<hex> host=<hex|~> port=<n|~> extra=<k>=<v|~>;…` | `err:eof` | `err:invalid` |
+  `panic` | `no-point` (the model needed `from_canonical` on a point that was not sent).
+* `w <policy a|b|n> <vis p|r> <allow r|o|ro|-> <delegate 0|1>` — decision of the worker for a well-formed
+  request by node 1 for a repository owned by node 0; policy: `a`llow entry, `b`lock entry, `n`o entry
+  (default policy of the test node: block); visibility `p`ublic / p`r`ivate with the allow list holding
+  the `r`equester (1) and/or an`o`ther node (2); `delegate` = the requester is a delegate.
+  Output: `served` | `refused`.
+-/
+namespace HeartwoodModel.Driver.C12
+open HeartwoodModel.Pktline HeartwoodModel.Serve HeartwoodModel.Driver.Util
+
+def toBytes (xs : List Nat) : Bytes := xs.map UInt8.ofNat
+def fromBytes (bs : Bytes) : List Nat := bs.map UInt8.toNat
+def hex (bs : Bytes) : String := toHex (fromBytes bs)
+
+/-- The graph of `from_canonical`: `(point, some oid | none)` pairs. -/
+abbrev Graph := List (Bytes × Option Bytes)
+
+def parseGraph (s : String) : Option Graph :=
+  if s == "-" then some [] else
+  (splitOn s ',').mapM fun e =>
+    match splitOn e ':' with
+    | [p, v] => do
+      let p ← hexBytes? p
+      if v == "x" then some (toBytes p, none) else do
+        let v ← hexBytes? v
+        some (toBytes p, some (toBytes v))
+    | _ => none
+
+/-- `none` = point not in the graph; `some none` = the real function rejected the point. -/
+def lookup (g : Graph) (p : Bytes) : Option (Option Bytes) :=
+  match g.find? (·.1 == p) with
+  | some (_, v) => some v
+  | none => none
+
+def showOpt (o : Option Bytes) : String := match o with | none => "~" | some b => hex b
+
+def showReq (r : GitRequest Bytes) : String :=
+  let host := match r.host with | none => "~" | some (h, _) => hex h
+  let port := match r.host with | some (_, some p) => toString p | _ => "~"
+  let extra := if r.extra.isEmpty then "-" else
+    joinWith ";" (r.extra.map fun (k, v) => hex k ++ "=" ++ showOpt v)
+  s!"ok rid={hex r.repo} path={hex r.path} host={host} port={port} extra={extra}"
+
+def runHeader (stream : Bytes) (g : Graph) : String :=
+  -- is the point the model will ask `from_canonical` about in the graph?
+  match ridPoint stream with
+  | some p =>
+    match lookup g p with
+    | none => "no-point"
+    | some _ =>
+      let ridOf : Bytes → Option Bytes := fun b => (lookup g b).bind id
+      match gitRequest ridOf stream with
+      | .ok r => showReq r
+      | .err .eof => "err:eof"
+      | .err .invalid => "err:invalid"
+      | .panic _ => "panic"
+  | none =>
+    match gitRequest (fun _ => (none : Option Bytes)) stream with
+    | .ok r => showReq r
+    | .err .eof => "err:eof"
+    | .err .invalid => "err:invalid"
+    | .panic _ => "panic"
+
+/-- `0018git-upload-pack /zA\0`: a well-formed header; `zA` is decoded to repository 7 by the scenario's `ridOf`. -/
+def wStream : Bytes := [0x30, 0x30, 0x31, 0x38] ++ cmdPrefix ++ [0x2F, 0x7A, 0x41, 0x00]
+
+def runWorker (policy vis allow deleg : String) : String :=
+  let pol : Option Policy := match policy with
+    | "a" => some .allow | "b" => some .block | "n" => some .block | _ => none
+  let al : Option (List Nat) := match allow with
+    | "-" => some [] | "r" => some [1] | "o" => some [2] | "ro" => some [1, 2] | _ => none
+  let visib : Option (Visibility Nat) := match vis, al with
+    | "p", some [] => some .pub
+    | "r", some l => some (.priv l)
+    | _, _ => none
+  match pol, visib, bool? deleg with
+  | some pol, some visib, some d =>
+    let env : Env Nat Nat := {
+      ridOf := fun b => if b = [0x7A, 0x41] then some 7 else none
+      policyOf := fun r => if r = 7 then some pol else some .block
+      docOf := fun r => if r = 7 then some { visibility := visib, delegates := if d then [0, 1] else [0] } else none
+      upload := fun _ => [0x50, 0x41, 0x43, 0x4B] }
+    match respond env 1 wStream with
+    | (.served _, out) => if out.isEmpty then "served-empty" else "served"
+    | (.refused _ _, out) => if out.isEmpty then "refused" else "refused-but-sent"
+    | (.parseError _, _) => "parse-error"
+    | (.panic _, _) => "panic"
+  | _, _, _ => "bad-op"
+
+def run (args : List String) : String :=
+  match args with
+  | ["h", stream, chunk, graph] =>
+    match hexBytes? stream, nat? chunk, parseGraph graph with
+    | some s, some _, some g => runHeader (toBytes s) g
+    | _, _, _ => "bad-op"
+  | ["w", policy, vis, allow, deleg] => runWorker policy vis allow deleg
+  | _ => "bad-op"
 
 end HeartwoodModel.Driver.C12
